@@ -519,6 +519,7 @@ def gen() -> None:
     ]
     for name in ("__init__", "args", "full_path", "url", "base_url", "root_url", "host_url", "host"):
         sections.append((f"sansio.request.Request.{name}", px.skeleton(px.find_method(sreq, name))))
+    sections.append(("test.EnvironBuilder.from_environ", px.skeleton(px.find_method(eb, "from_environ"))))
     sections.append(("test.EnvironBuilder.__init__ (URL part)", "\n".join(eb_init)))
     sections.append(("test.EnvironBuilder.get_environ (URL part)", "\n".join(ge_bits)))
     for n in eb_props:
@@ -1210,6 +1211,19 @@ def _e2e(chk, quick, corpus, add) -> None:
             w = repr(e)
         if w != got_url:
             chk.fail("wsgi-get_current_url-undecoded", f"wsgi.get_current_url(environ) = {w!r} but Request(environ).url = {got_url!r}", inp)
+        # rebuilding the environ through EnvironBuilder.from_environ is the identity on what the request reads (paths that
+        # would be re-read as URL syntax - percent sign, question mark, hash, controls - are outside: from_environ hands the
+        # decoded path to the constructor as a URL path)
+        if not any(ch in "%?#\\" or ord(ch) < 0x21 or ord(ch) == 0x7f for ch in p + want_root):
+            try:
+                r2 = Request(EnvironBuilder.from_environ(env).get_environ())
+                again = (r2.path, r2.root_path, list(r2.args.items(multi=True)), r2.query_string, r2.host, r2.url)
+            except Exception as e:  # noqa: BLE001
+                again = f"<raised {type(e).__name__}: {e}>"
+            if again != (got_path, got_root, got_args, r.query_string, got_host, got_url):
+                chk.fail("from-environ-not-identity", f"Request(EnvironBuilder.from_environ(env).get_environ()) reads {again!r}, "
+                         f"Request(env) read {(got_path, got_root, got_args, r.query_string, got_host, got_url)!r}", inp)
+            chk.count("e2e:from_environ")
         chk.count("e2e:environ-roundtrip:" + mode)
         chk.case(("e2e", mode, p, tuple(q.items()), base), nontrivial=True,
                  sample={"op": "EnvironBuilder->Request", "path": p, "query": q, "base_url": base, "impl": {"path": got_path, "url": got_url}}
@@ -1260,6 +1274,47 @@ def _raw_query(chk, quick, corpus) -> None:
                 bad.append(f"wsgi.get_current_url(environ) = {w!r} but Request.url = {got['url']!r}")
             if bad:
                 chk.fail("request-query-raw-text", "; ".join(bad), inp)
+            # rebuilding the environ (EnvironBuilder.from_environ, the path taken by Client.open(environ) and by redirect
+            # following) is the identity on what the request reads
+            def seen(rq):
+                return dict(path=rq.path, root_path=rq.root_path, args=list(rq.args.items(multi=True)), query_string=rq.query_string,
+                            host=rq.host, url=rq.url)
+            base_seen = seen(r)
+            try:
+                again = seen(Request(EnvironBuilder.from_environ(env).get_environ()))
+            except Exception as e:  # noqa: BLE001
+                again = f"<raised {type(e).__name__}: {e}>"
+            if again != base_seen:
+                diff = again if isinstance(again, str) else {k: (base_seen[k], again[k]) for k in base_seen if base_seen[k] != again[k]}
+                chk.fail("from-environ-not-identity", f"Request(EnvironBuilder.from_environ(env).get_environ()) differs from Request(env): {diff!r}", inp)
+            if rng.random() < 0.25:
+                got_app = {}
+
+                def app(environ, start_response, got_app=got_app):
+                    rq = Request(environ)
+                    if rq.path == "/redirect-me":
+                        start_response("307 TEMPORARY REDIRECT", [("Location", "http://example.org/app" + path + "?" + text)])
+                        return [b""]
+                    got_app.update(seen(rq))
+                    start_response("200 OK", [("Content-Type", "text/plain")])
+                    return [b"ok"]
+                from werkzeug.test import Client
+                try:
+                    Client(app).open(dict(env))
+                except Exception as e:  # noqa: BLE001
+                    got_app["error"] = repr(e)
+                if got_app != base_seen:
+                    diff = {k: (base_seen.get(k), got_app.get(k)) for k in set(base_seen) | set(got_app) if base_seen.get(k) != got_app.get(k)}
+                    chk.fail("client-open-environ-not-identity", f"the application called through Client.open(environ) sees {diff!r}", inp)
+                # ... and through a redirect whose Location carries the raw query
+                got_app.clear()
+                try:
+                    Client(app).get("/redirect-me", base_url="http://example.org/app/", follow_redirects=True)
+                except Exception as e:  # noqa: BLE001
+                    got_app["error"] = repr(e)
+                if got_app != base_seen:
+                    diff = {k: (base_seen.get(k), got_app.get(k)) for k in set(base_seen) | set(got_app) if base_seen.get(k) != got_app.get(k)}
+                    chk.fail("redirect-raw-query-not-preserved", f"after following a redirect to the same URL the application sees {diff!r}", inp)
             chk.count("e2e:raw-query:" + how)
             chk.case(("rawq", how, text, path), nontrivial=True,
                      sample={"op": "raw query text", "given": how, "query_text": text, "impl": got["url"]} if len(text) > 8 else None)
